@@ -109,6 +109,11 @@ func BuildCluster(l Layout) *hb.Cluster {
 	if l.HostCase {
 		for _, s := range c.Servers {
 			s.Addr = fmt.Sprintf("RS%d.Example.COM:16020", s.Idx)
+			if l.Servers > 1 && s.Idx == l.Servers-1 {
+				// one server is known by an IPv6 address the way HBase writes it
+				// into hbase:meta: no brackets
+				s.Addr = fmt.Sprintf("2001:db8::%d:16020", 16+s.Idx)
+			}
 		}
 	}
 	for _, t := range l.Tables {
